@@ -12,6 +12,9 @@ func init() {
 var lockPkgs = []string{"leveldb", "leveldb/cache", "leveldb/memdb", "leveldb/table", "leveldb/storage", "leveldb/util", "leveldb/iterator", "leveldb/journal"}
 
 func runC09(p *Prog, r *Report) {
+	if want("C09.1") {
+		ruleTokenContracts(p, r, "C09.1", 12)
+	}
 	if want("C09.2") {
 		ruleLockPairing(p, r, "C09.2", lockPkgs, 150)
 	}
